@@ -1,7 +1,12 @@
 import json,sys
 for f in sys.argv[1:]:
     o=json.load(open(f))
-    print("==",f); print(o['signature'],'|', o['what']); c=o['case']
-    if 'program' in c: print(c['program'])
+    print("==",f); print(o['signature'],'|', o['what'][:300]); c=o['case']
     ob=o['observed']
-    print(json.dumps({k:ob[k] for k in ob if k not in ('program','type')})[:1500])
+    prog = c.get('program') or (ob.get('program') if isinstance(ob,dict) else None) or (ob.get('validator',{}).get('program') if isinstance(ob,dict) and isinstance(ob.get('validator'),dict) else None)
+    if prog: print(prog)
+    def strip(x):
+        if isinstance(x,dict): return {k:strip(v) for k,v in x.items() if k not in ('program','type','value_tagged')}
+        if isinstance(x,list): return [strip(v) for v in x]
+        return x
+    print(json.dumps(strip(ob))[:1800])
